@@ -261,6 +261,12 @@ package twig
 //@ pool renderContextPool
 //@   invariant x.blocks == nil || x.blocks != x.parentBlocks
 
+// attribute cache invariant (C20), defined here because evictLRUEntries below uses it
+//@ define valMeth(T, A) (uf_hasMethod(T, A) && ufi_methNumIn(T, A) == 1)
+//@ define ptrMeth(T, A) (!valMeth(T, A) && uf_hasMethod(ufI_ptrTo(T), A) && ufi_methNumIn(ufI_ptrTo(T), A) == 1)
+//@ define entryOK(E, T, A) (E.fieldIndex == ite(uf_hasField(T, A), ufS_fieldPath(T, A), nil) && E.isMethod == (valMeth(T, A) || ptrMeth(T, A)) && E.ptrMethod == ptrMeth(T, A) && E.methodIndex == ite(valMeth(T, A), ufi_methIndex(T, A), ite(ptrMeth(T, A), ufi_methIndex(ufI_ptrTo(T), A), 0 - 1)))
+//@ define CacheOK() (forall k attributeCacheKey :: has(attributeCache.m, k) ==> entryOK(attributeCache.m[k], k.typ, k.attr))
+
 // ---------------------------------------------------------------- concurrency discipline (C02)
 // shared mutable state and the lock that protects it
 //@ list guarded Engine.templates Engine.mu
@@ -269,8 +275,11 @@ package twig
 //@ list guarded GlobalStringCache.strings GlobalStringCache.RWMutex
 //@ list guarded Debugger.traces Debugger.mu
 // evictLRUEntries is documented as "caller holds the attributeCache lock"
-//@ func evictLRUEntries props: C02
+//@ func evictLRUEntries props: C02 C20
 //@   flag holds attributeCache
+//@   requires[C20] CacheOK()
+//@   ensures[C20] CacheOK()
+//@   loop * invariant[C20] CacheOK()
 //@ func evictLRUEntries$1 props: C02
 //@   flag holds attributeCache
 // pooled per-call objects: nothing they own may be used after they are handed back
@@ -489,3 +498,19 @@ package twig
 //@   requires e.environment != nil
 //@   nonnil template
 //@   ensures[C15] has(e.templates, name) && e.templates[name] == template
+
+// ---------------------------------------------------------------- attribute access (C20)
+// CacheOK: every entry of the attribute cache holds what reflection answers for its key (type,
+// name); the statistics fields (lastAccess, accessCount) and currSize are deliberately not part
+// of it (they only influence when eviction runs, which the property declares unobservable).
+// the value and type getAttribute works on, as functions of obj alone
+//@ define OV() ite(ufi_typeKind(ufI_typeOf(ufV_valueOf(obj))) == 22, ufV_elem(ufV_valueOf(obj)), ufV_valueOf(obj))
+//@ define OT() ufI_typeOf(OV())
+//@ define FV() ufV_fieldByPath(OV(), ufS_fieldPath(OT(), attr))
+//@ define structCase() (obj != nil && !typeIs(obj, "map[string]interface{}") && ufi_kind(OV()) == 25)
+//@ func (*RenderContext).getAttribute props: C20
+//@   requires CacheOK()
+//@   ensures[C20] CacheOK()
+//@   ensures[C20] err == nil && structCase() && uf_hasField(OT(), attr) && len(ufS_fieldPath(OT(), attr)) >= 1 && ufI_fieldByPathErr(OV(), ufS_fieldPath(OT(), attr)) == nil && uf_isValid(FV()) && uf_canIface(FV()) ==> ret0 == ufI_iface(FV())
+//@   ensures[C20] err == nil && structCase() && !uf_hasField(OT(), attr) && !valMeth(OT(), attr) && !ptrMeth(OT(), attr) ==> ret0 == nil
+//@   ensures[C20] err == nil && typeIs(obj, "map[string]interface{}") ==> ret0 == ite(has(unboxAs(obj, "map[string]interface{}"), attr), unboxAs(obj, "map[string]interface{}")[attr], nil)
